@@ -472,6 +472,12 @@ func (s *nodePrivilegedService) FindMissingMessages(ctx context.Context, req *no
 	if err != nil {
 		return nil, status.Errorf(codes.InvalidArgument, "invalid emitter address encoding: %v", err)
 	}
+	if len(b) != 32 {
+		return nil, status.Errorf(codes.InvalidArgument, "invalid emitter address (expected 32 bytes)")
+	}
+	if req.EmitterChain > math.MaxUint16 || req.TargetChain > math.MaxUint16 {
+		return nil, status.Errorf(codes.InvalidArgument, "chain id out of range")
+	}
 	emitterAddress := vaa.Address{}
 	copy(emitterAddress[:], b)
 
